@@ -1,7 +1,7 @@
 SPECIFICATION Spec
 CONSTANTS
   MaxLen = 4
-  FullLen = 3
+  FullLen = 4
   MaxOpts = 4
   Seed = 1
   Bug_LoneLtDropped = FALSE
